@@ -47,6 +47,7 @@ func runBubble(t *testing.T, seed uint64, fn func()) {
 	verifSetDetSeed(seed)
 	verifSetFreezeRealTimers(true)
 	defer verifSetFreezeRealTimers(false)
+	startWedgeWatch()
 	func() {
 		defer func() {
 			if r := recover(); r != nil {
